@@ -70,6 +70,25 @@ def triSplineFlowBij (dim : Nat) (tanh_max_val : α) (key : Nat → (TriSplineNe
 def triSplineFlow (dim : Nat) (tanh_max_val : α) (key : Nat → (TriSplineNet α × List Nat)) (n : Nat) (invert : Bool)
     (base : VDist K α) : VDist K α := triangular_spline_flow.dist (triSplineFlowBij dim tanh_max_val key n invert) base
 
+/-! ### the GENERATED `triangular_spline_flow.make_layer` (g25)
+
+`triSplineInitNet` is the hand model's layer key for the layer AS CONSTRUCTED from `(lt_key, perm_key, cond_key)`: `dim` copies of
+`RationalQuadraticSpline(knots=knots, interval=1)`, the weight-normalised `TriangularAffine(zeros(dim), weights.at[diag].set(1))`,
+the `Linear` weight when conditional.  `Proofs/Flows.lean` proves the generated closure equal to
+`triSplineLayer dim tanh_max_val (triSplineInitNet …, perm_key)` (`gen_tri_spline_make_layer_eq`). -/
+def triSplineInitNet (dim knots : Nat) (cond_dim : Option Nat) (key : TriSplineKey α) : TriSplineNet α :=
+  { splines := List.replicate dim (rqsCtor knots 1),
+    tri := ⟨(weightNormalization (triangularAffineOf (zeros dim) (atSet key.1 (diagIndices dim) 1)).triangular).unwrap,
+            zeros dim, true⟩,
+    condLinear := cond_dim.map fun _ => key.2.2 }
+
+/-- the generated factory body over the generated closure -/
+def genTriSplineFlowBij (dim : Nat) (tanh_max_val : α) (knots : Nat) (cond_dim : Option Nat) (key : Nat → TriSplineKey α)
+    (n : Nat) (invert : Bool) : VBij α := triangular_spline_flow.bijection_gen dim tanh_max_val knots cond_dim key n invert
+def genTriSplineFlow (dim : Nat) (tanh_max_val : α) (knots : Nat) (cond_dim : Option Nat) (key : Nat → TriSplineKey α)
+    (n : Nat) (invert : Bool) (base : VDist K α) : VDist K α :=
+  triangular_spline_flow.dist (genTriSplineFlowBij dim tanh_max_val knots cond_dim key n invert) base
+
 /-! ### `planar_flow(…, negative_slope=None)`: tanh activation, forward methods only
 
 `_UnconditionalPlanar.inverse / inverse_and_log_det` raise `NotImplementedError` for tanh, hence so do `Scan.inverse*`
